@@ -279,15 +279,61 @@ def check_D1(ctx, facts, rule='C05.D1'):
         for bb, t in b.calls():
             if cname(t) != P + 'begin_keyspace_sync':
                 continue
-            for i, a in enumerate(t['args']):
-                l = op_local(a)
-                if l is None:
-                    continue
+            def diff_field(pl):
+                if pl and b.local_ty(pl['l']) == P + 'KeyspaceDiff' and pl['p'] and isinstance(pl['p'][-1], dict) and 'f' in pl['p'][-1]:
+                    return fields[pl['p'][-1]['f']]
+                return None
+
+            def field_source(l, depth=0):
+                back = flow.backward([l])
                 for _b, _j, s in b.assigns():
-                    if s['lhs']['l'] in flow.backward([l]) and s['rv']['k'] == 'use':
-                        pl = op_place(s['rv']['op'])
-                        if pl and b.local_ty(pl['l']) == P + 'KeyspaceDiff' and pl['p'] and isinstance(pl['p'][-1], dict) and 'f' in pl['p'][-1]:
-                            pos[fields[pl['p'][-1]['f']]] = i + 1
+                    if s['lhs']['l'] in back and s['rv']['k'] == 'use':
+                        f_ = diff_field(op_place(s['rv']['op']))
+                        if f_ is not None:
+                            return f_
+                # through a one-argument converter of the crate that keeps every entry (element-wise map / collect, no dropping adaptor)
+                for _b2, t2 in b.calls():
+                    cb = facts.body(cname(t2)) if cname(t2) and cname(t2).startswith(EC) else None
+                    if cb is None or t2['dest']['l'] not in back or t2['dest']['p'] or len(t2['args']) != 1 or depth > 2:
+                        continue
+                    if lossy_steps(facts, cb, Flow(cb), [1]) or 0 not in Flow(cb).forward([1]):
+                        continue
+                    f_ = diff_field(op_place(t2['args'][0]))
+                    if f_ is None and op_local(t2['args'][0]) is not None:
+                        f_ = field_source(op_local(t2['args'][0]), depth + 1)
+                    if f_ is not None:
+                        return f_
+                return None
+            full = None
+            for i, a in enumerate(t['args']):
+                f_ = diff_field(op_place(a))
+                if f_ is None and op_local(a) is not None:
+                    f_ = field_source(op_local(a))
+                if f_ is None and op_local(a) is not None and ('Vec<' in b.local_ty(op_local(a))):
+                    # through an iterator chain in this body (a converter inlined at load, or written in place): the argument derives from
+                    # exactly ONE field of the diff and no dropping adaptor sits on the way
+                    full = full or Flow(b)
+                    back = full.backward([op_local(a)])
+                    found = set()
+                    srcs = []
+                    for _b3, t3 in b.calls():
+                        if t3['dest']['l'] in back:
+                            for a3 in t3['args']:
+                                f3 = diff_field(op_place(a3))
+                                if f3 is not None:
+                                    found.add(f3)
+                                    srcs.append(t3['dest']['l'])
+                    for _b3, _j3, s3 in b.assigns():
+                        if s3['lhs']['l'] in back and s3['rv']['k'] == 'use':
+                            f3 = diff_field(op_place(s3['rv']['op']))
+                            if f3 is not None:
+                                found.add(f3)
+                                srcs.append(s3['lhs']['l'])
+                    if len(found) == 1 and not [x for x in lossy_steps(facts, b, full, srcs) if True and any(
+                            op_local(t4['args'][0]) in back for _b4, t4 in b.calls() if t4['cs'] == x[0] and t4['args'])]:
+                        f_ = found.pop()
+                if f_ is not None:
+                    pos[f_] = i + 1
     # (3b) every listed change is exchanged: from the Some edge of the loop over the changes no path comes back to the loop
     #      (or leaves it) without passing begin_keyspace_sync — a skipped change is a difference that is never applied
     for b in rm:
